@@ -112,7 +112,7 @@ class OrbitFamily:
         self.ops = {}
         for v in self.opts:
             self._add(Op(f"correct_{v}", self._correct(v), mutates=True, memo_tag="correct", kind="correct", arg=v))
-        for which in ("P", "half"):
+        for which in ("P", "half", "exact"):
             self._add(Op(f"set_period_{which}", self._set_period(which), mutates=True, kind="set_period", arg=which))
         for steps in (30, 60):
             for meth, order in (("adaptive", 8), ("fixed", 4), ("fixed", 6)):
@@ -142,7 +142,12 @@ class OrbitFamily:
     def _set_period(self, which):
         def fn(h):
             P = self.env.p_ref(h["A"])
-            h["o"].period = P if which == "P" else 0.5 * P
+            if which == "exact":
+                # bitwise the period a correction of this orbit returns (taken from a twin corrected outside any monitored step):
+                # a later correct() then changes the state but not the period, so invalidation cannot ride on the period setter
+                h["o"].period = self.env._pexact[h["A"]]
+            else:
+                h["o"].period = P if which == "P" else 0.5 * P
             return None
         return fn
 
@@ -766,6 +771,9 @@ def orbit_workload(ctx, ex, env):
         ("ref", ("correct_D",), ["propagate_30_adaptive8", "propagate_60_adaptive8", "propagate_30_fixed4", "propagate_30_fixed6", "trajectory"], L),
         ("ref", ("correct_D",), ["propagate_30_adaptive8", "propagate_60_adaptive8", "trajectory"], 4),
         ("ref", ("correct_D",), ["set_period_P", "set_period_half", "monodromy", "stability_indices", "correct_D"], L),
+        # period pre-set to exactly the value the correction returns: read memo, correct, read again
+        ("guess", ("set_period_exact",), ["monodromy", "stability_indices", "correct_D", "eigenvalues"], L),
+        ("guess", ("set_period_exact", "propagate_30_adaptive8"), ["correct_D", "trajectory", "propagate_30_adaptive8"], 2),
     ]
     if not ctx.quick:
         subs += [
